@@ -260,6 +260,36 @@ def check(program, rep):
                         "earlier call already consumed" % (q, decs), fn)
             for n in ast.walk(fn):
                 if isinstance(n, ast.Global):
+                    # a constant built on first use: every value stored in
+                    # the name is computed from no argument of the function
+                    # (nothing of an earlier call can show in a later one);
+                    # anything else rebinding a module-level name is state
+                    lazy = True
+                    pnames = set(params)
+                    for st_ in ast.walk(fn):
+                        tg_ = []
+                        if isinstance(st_, ast.Assign):
+                            tg_ = st_.targets
+                        elif isinstance(st_, (ast.AugAssign, ast.AnnAssign)):
+                            tg_ = [st_.target]
+                        for t_ in tg_:
+                            for x_ in ast.walk(t_):
+                                if isinstance(x_, ast.Name) and \
+                                        x_.id in n.names:
+                                    if isinstance(st_, ast.AugAssign) or \
+                                            st_.value is None or any(
+                                                isinstance(y_, ast.Name) and
+                                                y_.id in pnames
+                                                for y_ in ast.walk(
+                                                    st_.value)):
+                                        lazy = False
+                    if lazy and not pnames - {"self", "cls"}:
+                        rep.undecided("C17-R2", "%s builds the module-level "
+                                      "%s on first use (a value computed "
+                                      "from no argument); whether it is "
+                                      "immutable is not analysed" % (
+                                          q, ", ".join(n.names)))
+                        continue
                     rep.bad("C17-R2", inst, "global %s" % ",".join(n.names),
                             "%s rebinds module-level names %s" % (
                                 q, n.names), n)
